@@ -89,6 +89,7 @@ class World:
                                     max_steps=max_steps)
         self.svc = fakes3.FakeS3(emit=self._emit_s3, point=self.sched.point)
         self.svc.body_read_size = sc.get('body_read', None)
+        self.svc.log_body_sends = bool(sc.get('log_body_sends'))
         if sc.get('latency'):
             self.svc.latency_plan = self._latency
         self.tmp = None
